@@ -55,7 +55,15 @@ type c27Op struct {
 	// iter
 	Prefix string `json:"prefix,omitempty"`
 	Start  string `json:"start,omitempty"`
+	// fill: N keys K‖be16(j), j < N, are put one by one (ranges of more than a hundred keys)
+	N int `json:"n,omitempty"`
 }
+
+func c27FillKey(prefix []byte, j int) []byte {
+	return append(append([]byte(nil), prefix...), byte(j>>8), byte(j))
+}
+
+func c27FillVal(j int) []byte { return []byte{byte(j), byte(j >> 8), 0x5A} }
 
 type c27Input struct {
 	Ops []c27Op `json:"ops"`
@@ -192,6 +200,10 @@ func c27Gen(rt *rapid.T) c27Input {
 					op.Ops = append(op.Ops, c27BOp{K: c27Hex(c27GenKey(rt, &pool)), V: c27Hex(c27GenVal(rt))})
 				}
 			}
+		case w == 99 || (w == 98 && i == 0):
+			p := c27GenRaw(rt, 2)
+			op = c27Op{Kind: "fill", K: c27Hex(p), N: rapid.SampledFrom([]int{99, 100, 101, 128, 201, 260}).Draw(rt, "fill_n")}
+			pool = append(pool, c27FillKey(p, 0), c27FillKey(p, op.N-1))
 		case w < 76 && len(pool) >= 2:
 			// close and reopen the store (on-disk providers flush; model unchanged)
 			op = c27Op{Kind: "reopen"}
@@ -534,6 +546,11 @@ func c27Check(c *kit.Case, in c27Input) {
 			for _, b := range op.Ops {
 				add(b.K)
 			}
+		case "fill":
+			if op.N > 0 && op.N <= 1000 {
+				add(c27Hex(c27FillKey(c27Un(op.K), 0)))
+				add(c27Hex(c27FillKey(c27Un(op.K), op.N-1)))
+			}
 		}
 	}
 	universe := make([]string, 0, len(uni))
@@ -601,6 +618,18 @@ func c27Check(c *kit.Case, in c27Input) {
 
 func (r *c27Run) step(i int, op c27Op, universe []string) {
 	switch op.Kind {
+	case "fill":
+		if op.N <= 0 || op.N > 1000 {
+			return
+		}
+		p := c27Un(op.K)
+		for j := 0; j < op.N; j++ {
+			k, v := c27FillKey(p, j), c27FillVal(j)
+			if err := r.db.Put(append([]byte(nil), k...), append([]byte(nil), v...)); err != nil {
+				r.failf(i, "Put(%x,%x) error: %v", k, v, err)
+			}
+			r.model[string(k)] = v
+		}
 	case "put":
 		k, v := c27Un(op.K), c27Un(op.V)
 		kb, vb := append([]byte(nil), k...), append([]byte(nil), v...)
@@ -823,6 +852,15 @@ func c27Classify(c *kit.Case, in c27Input) {
 	}
 	for _, op := range in.Ops {
 		switch op.Kind {
+		case "fill":
+			if op.N > 0 && op.N <= 1000 {
+				for j := 0; j < op.N; j++ {
+					m[string(c27FillKey(c27Un(op.K), j))] = c27FillVal(j)
+				}
+				if op.N > 100 {
+					cl("fill_more_than_100_keys_under_one_prefix")
+				}
+			}
 		case "put":
 			m[string(c27Un(op.K))] = c27Un(op.V)
 			if len(op.K) == 0 {
